@@ -608,22 +608,6 @@ def _c02_dict_eval_order(rec):
     return False
 
 
-@classifier("duplicate-functions-differ-in-defaults")
-def _c02_dup_functions(rec):
-    """remove_duplicate_functions compares function bodies up to renaming but not the default values of the arguments: `def f(a=X): ...` and
-    `def g(a=Y): ...` are merged and callers of g get f's default."""
-    b = _behaviour(rec, {"fixes.remove_duplicate_functions"})
-    if not b:
-        return False
-    _, _, _, tb, ta = b
-    by_body = {}
-    for n in ast.walk(tb):
-        if isinstance(n, ast.FunctionDef):
-            sig = (len(n.args.args), len(n.body))
-            by_body.setdefault(sig, []).append([ast.dump(d) for d in n.args.defaults + [d for d in n.args.kw_defaults if d is not None]])
-    return any(len({tuple(d) for d in v}) > 1 for v in by_body.values() if len(v) > 1)
-
-
 # ----------------------------------------------------------------------------------------- C07
 @classifier("safe-mode-drops-underscore-assignment")
 def _c07_underscore(rec):
@@ -926,3 +910,39 @@ def _c18_several_stars(rec):
         if re.search(r"(?<![A-Za-z0-9_])" + re.escape(name) + r"(?![A-Za-z0-9_])", text) or re.search(r"import \*", text):
             providers += 1
     return providers >= 2
+
+
+# ----------------------------------------------------------------------------------------- C16 (with + raise)
+@classifier("raise-inside-with-treated-as-blocking")
+def _c16_with_raise(rec):
+    """core.is_blocking answers a `with` statement by its body. When the body ends in a raise (or `assert False`), the statement counts as impossible to get
+    past, although the context manager may swallow the exception (contextlib.suppress, a transaction manager, pytest.raises): the code after the with block
+    is deleted as unreachable. The repository's own tests/unit/test_is_blocking.py expects `with x as y: raise RuntimeError()` to be blocking, so it is
+    recorded, not repaired."""
+    if rec.get("kind") not in ("is_blocking_but_next_statement_reached", "deleted_code_was_observable", "program_behaves_differently", "step_changes_behaviour"):
+        return False
+    rule, before, after = _step(rec)
+    if rule not in ("core.is_blocking", "fixes.delete_unreachable_code", "fixes.remove_redundant_else", "fixes.breakout_common_code_in_ifs", "main.format_code"):
+        return False
+    text = before or rec.get("input") or ""
+    tree = _parse(text)
+    if tree is None:
+        import textwrap
+
+        tree = _parse("def _f():\n" + textwrap.indent(text, "    "))
+    if tree is None:
+        return False
+
+    def may_leave_by_exception(body):
+        """A raise or a failing assert somewhere in the body (not in a nested def): the only way out that a context manager can close."""
+        stack = list(body)
+        while stack:
+            st = stack.pop()
+            if isinstance(st, ast.Raise) or (isinstance(st, ast.Assert) and not (isinstance(st.test, ast.Constant) and st.test.value)):
+                return True
+            if isinstance(st, (ast.FunctionDef, ast.AsyncFunctionDef, ast.ClassDef, ast.Lambda)):
+                continue
+            stack.extend(c for c in ast.iter_child_nodes(st) if isinstance(c, (ast.stmt, ast.ExceptHandler)))
+        return False
+
+    return any(isinstance(n, (ast.With, ast.AsyncWith)) and may_leave_by_exception(n.body) for n in ast.walk(tree))
